@@ -185,6 +185,9 @@ JudgeLine(e, st) ==
                   ELSE IF o.class = "deliver"
                        THEN {<<"C05", "reassembled payload">>, <<"C06", "reassembled payload">>,
                              <<"C07", "payload of a completed group is not the concatenation of its fragments">>}
+                            \* ... and if the group carries a binary message, bytes of it were dropped or added
+                            \cup (IF SentenceTypeIdeal(o.data) \in {6, 8, 17}
+                                  THEN V("C15", "reassembled payload of a binary message is not the transmitted one") ELSE {})
                        ELSE IF o.class = "single" THEN V("C07", "payload")
                        ELSE {<<"C07", "payload">>, <<"C05", "fragment payload">>})
             \cup (IF mtOk \/ mtDev THEN {} ELSE V("C19", "sentence message type"))
@@ -270,6 +273,10 @@ TwinViol(e) ==
     ELSE IF e.twinmode = "msgonly"
          THEN IF e.r = e.twin.r /\ MsgOfEv(e) = MsgOfEv(e.twin) THEN {}
               ELSE V(e.twinprop, "result / decoded message differs from its twin (" \o e.twinwhy \o ")")
+    ELSE IF e.twinmode = "msgeq"
+         \* the same message through a sentence and through the direct decode of its unarmored bytes
+         THEN IF (e.r \in {"ok", "complete"}) = (e.twin.r \in {"ok", "complete"}) /\ MsgOfEv(e) = MsgOfEv(e.twin) THEN {}
+              ELSE V(e.twinprop, "decoded message differs from its twin (" \o e.twinwhy \o ")")
     ELSE IF e.twinmode = "kind"
          \* the two inputs differ only in bits that must not decide between a value and an error
          THEN IF (e.r \in {"ok", "complete", "incomplete"}) = (e.twin.r \in {"ok", "complete", "incomplete"}) THEN {}
@@ -382,8 +389,17 @@ JudgeCli(e, st) ==
                   THEN V("C05", "a message printed for a fragment that does not complete its group") ELSE {})
             \cup (IF r0 = "complete" /\ px.must = "ok" /\ e.out = 1 /\ e.variant # px.dm.v
                   THEN V("C09", "type " \o ToString(px.dm.t) \o " printed as " \o e.variant) ELSE {})
+        \* a sentence numbered outside 1 <= k <= n: what it counts as is not specified, but a record printed for
+        \* it holds the decoding of its own payload, or of the open group's followed by its own - nothing else
+        ownPx == PayloadExpect(ln.payload, ln.fill)
+        grpPx == PayloadExpect(st.data \o ln.payload, ln.fill)
+        oddViol ==
+            IF ln.starInField \/ e.out # 1 \/ e.variant \in {"?", "None", ""} THEN {}
+            ELSE IF (ownPx.must # "err" /\ e.variant = ownPx.dm.v) \/ (grpPx.must # "err" /\ e.variant = grpPx.dm.v) THEN {}
+            ELSE IF ownPx.must = "err" /\ grpPx.must = "err" THEN {}
+            ELSE V("C20", "the record printed for this line holds a message that is neither its own payload's nor its group's")
     IN  IF unspec
-        THEN [viol |-> IF e.out + e.err > 1 THEN V("C20", "more than one record for a line") ELSE {},
+        THEN [viol |-> (IF e.out + e.err > 1 THEN V("C20", "more than one record for a line") ELSE {}) \cup oddViol,
               st |-> o.st,
               lost |-> ~((r0 = "incomplete" /\ okNone) \/ (r0 = "complete" /\ (okErr \/ e.out = 1)) \/ (r0 \notin {"complete", "incomplete"} /\ okErr)),
               class |-> o.class, unspec |-> TRUE]
